@@ -27,7 +27,7 @@ try:
         for pr in props:
             t0 = time.time()
             p = subprocess.run([os.path.join(V, "check"), pr, "--tier", "quick"], capture_output=True, text=True, env=env, timeout=5400)
-            lines = [l for l in p.stdout.splitlines() if l.startswith(("VIOLATION", "UNDECIDED", "CHECKER-ERROR"))]
+            lines = [l for l in p.stdout.splitlines() if l.startswith(("VIOLATION", "UNDECIDED", "CHECKER-ERROR", "DEGRADED"))]
             res["props"][pr] = {"exit": p.returncode, "secs": round(time.time() - t0, 1), "lines": [l[:400] for l in lines[:10]]}
             if p.returncode != 0:
                 ok = False
